@@ -10,7 +10,7 @@ import itertools
 from fractions import Fraction
 
 from .. import gen
-from ..common import cnat, cz, cq, cbool, clist, copt, coq_eval
+from ..common import cnat, cz, cq, cbool, clist, copt, coq_eval, CoqEvalError
 from ..impl import Impl
 
 GEN_FILES = ['VoteConsts.v']
@@ -45,6 +45,29 @@ Definition run_linker (emb : mat) (mask : list bool) (k : nat) (thr : Q) (aps : 
   map (fun x : nat * list (nat * Q) => (fst x, map (fun p : nat * Q => (fst p, qp (snd p))) (snd x)))
       (nnlinker_fit_core emb mask k thr aps).
 '''
+
+
+class ModelEval:
+    """Evaluates the Coq models. A failure (a translator that failed closed, a model that no longer compiles) is
+    recorded in ctx.notes, makes every later evaluation return None (the model diffs are skipped, the
+    implementation-side oracles still run) and is re-raised at the end of run()."""
+
+    def __init__(self, ctx):
+        self.ctx = ctx
+        self.error = None
+
+    def __call__(self, tag, exprs, prelude=None):
+        if not exprs:
+            return []
+        if self.error is not None:
+            return None
+        try:
+            return coq_eval(tag, IMPORTS, exprs, prelude=PRELUDE if prelude is None else prelude)
+        except CoqEvalError as e:
+            self.error = e
+            self.ctx.notes.append('model evaluation failed at %s: the model diffs are skipped, the implementation-side oracles '
+                                  'run without it: %s' % (tag, ' '.join(str(e).split())[-400:]))
+            return None
 
 
 def Qf(p):
@@ -283,17 +306,18 @@ def run(ctx, scratch):
     nmax = 12 if quick else 40
     scale = 1 if quick else 18
 
+    mev = ModelEval(ctx)
     with Impl(scratch) as impl:
-        run_witnesses(ctx, impl)
-        run_propagation(ctx, impl, rng, nmax, 330 * scale)
-        run_termination(ctx, impl, rng, 200 * scale)
-        run_diffusion(ctx, impl, rng, nmax, 170 * scale)
-        run_nn(ctx, impl, rng, nmax, 150 * scale)
-        run_pagerank(ctx, impl, rng, nmax, 50 * scale)
-        run_nnlinker(ctx, impl, rng, nmax, 110 * scale)
-        run_metrics(ctx, impl, rng, 260 * scale)
+        run_witnesses(ctx, impl, mev)
+        run_propagation(ctx, impl, mev, rng, nmax, 330 * scale)
+        run_termination(ctx, impl, mev, rng, 200 * scale)
+        run_diffusion(ctx, impl, mev, rng, nmax, 170 * scale)
+        run_nn(ctx, impl, mev, rng, nmax, 150 * scale)
+        run_pagerank(ctx, impl, mev, rng, nmax, 50 * scale)
+        run_nnlinker(ctx, impl, mev, rng, nmax, 110 * scale)
+        run_metrics(ctx, impl, mev, rng, 260 * scale)
     with Impl(scratch) as impl2:
-        run_label_range(ctx, impl2, rng, 24 * scale)
+        run_label_range(ctx, impl2, mev, rng, 24 * scale)
 
     ctx.rule = ('per classifier (Propagation, DiffusionClassifier, NNClassifier, PageRankClassifier) x seeds as array / list / '
                 'dict (>= 2 classes, labels with gaps, >= 1 unlabelled node, labels < n) x options (weighted with unequal '
@@ -312,30 +336,35 @@ def run(ctx, scratch):
                        'NNClassifier / NNLinker use embedding_method=None (embedding methods are oracles of the model)',
                        'the ranking scores, argsort / shuffle / argpartition answers and exp are oracles; their contracts are checked '
                        'on every captured answer']
+    if mev.error is not None:
+        raise mev.error
 
 
 # ----------------------------------------------------------------------------------------------------------
-def run_witnesses(ctx, impl):
-    """The D5 witness of vote_weighted_refuted on the compiled kernel; D21 witness of the brief."""
+def run_witnesses(ctx, impl, mev):
+    """The D5 witness of vote_weighted_refuted on the compiled kernel: local-evidence oracle first, then the models."""
     args = dict(indptr=[0, 0, 1, 2, 4], indices=[3, 3, 1, 2], data=[1, 2, 1, 2], labels=[-1, 0, 1, 0], index=[0, 3])
     r = impl.call('c13', 'vote_kernel', args, timeout=20)
     ctx.traces += 1
     ctx.count('witness:vote_kernel', ('w', 'd5'), True)
-    legacy, repaired = coq_eval('c13w', IMPORTS, [
-        'vote_update legacy_kernel wit_indptr wit_indices wit_data wit_labels wit_index',
-        'vote_update src_kernel wit_indptr wit_indices wit_data wit_labels wit_index'],
-        prelude='From SKN Require Import Proofs.VoteProofs.')
     if 'ok' not in r:
         ctx.violation('vote_update', 'kernel failed on the weighted witness', case=args, kind='error', observed=r, weighted=True)
         return
-    if legacy[0] == 'VOk' and list(legacy[1]) == r['ok']:
-        ctx.violation('vote_update', 'weighted vote ignores the edge weights: node 3 keeps label 0 against weights 2 > 1 '
-                      '(legacy kernel behaviour, vote_weighted_refuted)', case=args, kind='not_local_max', weighted=True,
-                      expected=[-1, 0, 1, 1], observed=r['ok'], legacy_kernel=True)
-    elif not (repaired[0] == 'VOk' and list(repaired[1]) == r['ok']):
-        ctx.violation('vote_update', 'kernel differs from the model of the current source on the weighted witness', case=args,
-                      kind='model_diff', weighted=True, expected=repaired, observed=r['ok'])
-    ctx.sample(dict(kind='vote_kernel witness', args=args, impl=r.get('ok'), model_legacy=legacy, model_source=repaired))
+    rows = [[], [(3, Fraction(1))], [(3, Fraction(2))], [(1, Fraction(1)), (2, Fraction(2))]]
+    bad = local_evidence(rows, True, [-1, 0, 1, -1], r['ok']) if len(r['ok']) == 4 else [dict(labels=r['ok'])]
+    if bad:
+        ctx.violation('vote_update', 'weighted vote ignores the edge weights: after the sweep node 3 does not hold the label of '
+                      'maximal weight (2 > 1) (legacy kernel behaviour, vote_weighted_refuted)', case=args, kind='not_local_max',
+                      weighted=True, expected=[-1, 0, 1, 1], observed=r['ok'], legacy_kernel=True)
+    mv = mev('c13w', ['vote_update legacy_kernel wit_indptr wit_indices wit_data wit_labels wit_index',
+                      'vote_update src_kernel wit_indptr wit_indices wit_data wit_labels wit_index'],
+             prelude='From SKN Require Import Proofs.VoteProofs.')
+    if mv is not None:
+        legacy, source = mv
+        if not bad and not (source[0] == 'VOk' and list(source[1]) == r['ok']):
+            ctx.violation('vote_update', 'kernel differs from the model of the current source on the weighted witness', case=args,
+                          kind='model_diff', weighted=True, expected=source, observed=r['ok'])
+        ctx.sample(dict(kind='vote_kernel witness', args=args, impl=r.get('ok'), model_legacy=legacy, model_source=source))
 
 
 # ----------------------------------------------------------------------------------------------------------
@@ -391,17 +420,44 @@ def prop_expr(c, rows, oracle, fuel):
                                               cbool(c['weighted']), copt(c['n_iter'], cnat), fuel)
 
 
-def run_propagation(ctx, impl, rng, nmax, count):
+def prop_oracles(ctx, c, rows, r, f, fuel_note=''):
+    """Implementation-side oracles for one Propagation run (no model needed). Returns the labels or None."""
+    case = prop_args(c)
+    if 'hang' in r:
+        ctx.violation('propagation_hang', 'Propagation.fit does not return (the sweeps cycle between labelings%s)' % fuel_note,
+                      case=case, kind='hang', **f)
+        return None
+    if 'crash' in r or 'err' in r:
+        ctx.violation('Propagation', 'fit raised / crashed on a valid input', case=case, kind='crash' if 'crash' in r else 'error',
+                      observed={k: r[k] for k in r if k != 'tb'}, **f)
+        return None
+    o = r['ok']
+    g, vec = c['g'], c['vec']
+    labels = all_labels(o, g)
+    check_common(ctx, 'Propagation', g, vec, o, case, f)
+    # the last sweep the kernel ran changed nothing on the updated nodes: the loop stopped on its array_equal test
+    if o['sweeps'] >= 1 and o['last_unchanged'] and len(labels) == len(vec):
+        bad = local_evidence(rows, c['weighted'], vec, labels)
+        if bad:
+            ctx.violation('Propagation', 'stopped because a sweep changed nothing, but a non-seed node with a labelled '
+                          'neighbour does not hold a label of maximal total vote', case=case, kind='not_local_max',
+                          observed=dict(labels=labels, nodes=bad[:4]), **f)
+    return labels
+
+
+def prop_fields(c):
+    n = len(c['vec'])
+    return dict(node_order=c['node_order'] or 'none', weighted=c['weighted'], n_iter_default=c['n_iter'] is None,
+                seed_vector_all_distinct=len(set(c['vec'])) == n, form=c['form'], family=c['fam'])
+
+
+def run_propagation(ctx, impl, mev, rng, nmax, count):
     cases = prop_cases(rng, nmax, count)
     FUEL = 150
     outs = [None] * len(cases)
     oracles = [[] for _ in cases]
+    no_oracle = set()
     rowsl = [adjacency_rows(c['g']) for c in cases]
-
-    def fields(c):
-        n = len(c['vec'])
-        return dict(node_order=c['node_order'] or 'none', weighted=c['weighted'], n_iter_default=c['n_iter'] is None,
-                    seed_vector_all_distinct=len(set(c['vec'])) == n, form=c['form'], family=c['fam'])
 
     def call(i, timeout):
         c = cases[i]
@@ -411,12 +467,13 @@ def run_propagation(ctx, impl, rng, nmax, count):
                   ('prop', prop_args(c)), True)
         return r
 
-    # phase A: explicit n_iter (captures the oracle answers)
+    # phase A: explicit n_iter -- implementation and its oracles (the NumPy answers are captured for the model)
     for i, c in enumerate(cases):
         if c['n_iter'] is None:
             continue
         r = call(i, 20)
         outs[i] = r
+        prop_oracles(ctx, c, rowsl[i], r, prop_fields(c))
         if 'ok' not in r:
             continue
         o = r['ok']
@@ -425,7 +482,10 @@ def run_propagation(ctx, impl, rng, nmax, count):
             oracles[i] = o['shuffle'][-1] if o['shuffle'] else []
         elif c['node_order'] in ('increasing', 'decreasing'):
             cand = [x for x in o['argsort'] if len(x) == n]
-            oracles[i] = cand[-1] if cand else []
+            if not cand:
+                no_oracle.add(i)     # the source no longer asks NumPy for an argsort of all the nodes: nothing to feed the model
+                continue
+            oracles[i] = cand[-1]
             # contract of argsort: a permutation of the nodes sorting the (negated) in-weights
             inw = [Fraction(0)] * n
             for row in rowsl[i]:
@@ -438,50 +498,39 @@ def run_propagation(ctx, impl, rng, nmax, count):
                               kind='argsort', observed=p)
     # phase B: the model
     exprs = [prop_expr(c, rowsl[i], oracles[i], FUEL if c['n_iter'] is None else c['n_iter'] + 1) for i, c in enumerate(cases)]
-    model = coq_eval('c13p', IMPORTS, exprs, prelude=PRELUDE)
-    # phase C: default n_iter; runs the model predicts not to return are confirmed on a few cases only
-    hang_budget = 0   # runs the model predicts not to return are confirmed in run_termination only
+    model = mev('c13p', exprs)
+    # phase C: default n_iter. Runs the model predicts not to return are left to run_termination; without a model every
+    # case is run with a short time-out, at most two hangs are paid for.
+    hangs = 0
     for i, c in enumerate(cases):
         if c['n_iter'] is not None:
             continue
-        if model[i][0] == 'POutOfFuel':
-            if hang_budget > 0:
-                hang_budget -= 1
-                outs[i] = call(i, 8)
-            else:
-                ctx.count('Propagation:predicted_nontermination_not_run', ('prop', prop_args(c)), True)
-                outs[i] = {'skipped': True}
-        else:
-            outs[i] = call(i, 20)
-    # compare + oracles
+        if model is not None and model[i][0] == 'POutOfFuel':
+            ctx.count('Propagation:predicted_nontermination_not_run', ('prop', prop_args(c)), True)
+            outs[i] = {'skipped': True}
+            continue
+        if model is None and hangs >= 2:
+            outs[i] = {'skipped': True}
+            continue
+        outs[i] = call(i, 20 if model is not None else 6)
+        if 'hang' in outs[i]:
+            hangs += 1
+        prop_oracles(ctx, c, rowsl[i], outs[i], prop_fields(c))
+    # phase D: correspondence with the model
+    if model is None:
+        return
     for i, c in enumerate(cases):
         r, mv = outs[i], model[i]
+        if r.get('skipped') or 'ok' not in r:
+            continue
+        if i in no_oracle:
+            drop(ctx, 'propagation: no argsort of all the nodes captured, model not comparable')
+            continue
         case = prop_args(c)
-        f = fields(c)
-        if r.get('skipped'):
-            continue
-        if 'hang' in r:
-            ctx.violation('propagation_hang', 'Propagation.fit does not return (the sweeps cycle between labelings; model: '
-                          'out of fuel after %d sweeps)' % FUEL, case=case, kind='hang',
-                          model_out_of_fuel=mv[0] == 'POutOfFuel', **f)
-            continue
-        if 'crash' in r or 'err' in r:
-            ctx.violation('Propagation', 'fit raised / crashed on a valid input', case=case, kind='crash' if 'crash' in r else 'error',
-                          observed={k: r[k] for k in r if k != 'tb'}, **f)
-            continue
+        f = prop_fields(c)
         o = r['ok']
-        g, vec = c['g'], c['vec']
+        g = c['g']
         labels = all_labels(o, g)
-        # ---- property oracles
-        check_common(ctx, 'Propagation', g, vec, o, case, f)
-        stopped = o['sweeps'] >= 1 and o['last_unchanged'] and (c['n_iter'] is None or True)
-        if stopped and len(labels) == len(vec):
-            bad = local_evidence(rowsl[i], c['weighted'], vec, labels)
-            if bad:
-                ctx.violation('Propagation', 'stopped because a sweep changed nothing, but a non-seed node with a labelled '
-                              'neighbour does not hold a label of maximal total vote', case=case, kind='not_local_max',
-                              observed=dict(labels=labels, nodes=bad[:4]), **f)
-        # ---- correspondence with the model
         if mv[0] == 'POutOfFuel':
             drop(ctx, 'propagation: model out of fuel, implementation returned')
             continue
@@ -507,7 +556,7 @@ def run_propagation(ctx, impl, rng, nmax, count):
 
 
 # ----------------------------------------------------------------------------------------------------------
-def run_termination(ctx, impl, rng, count):
+def run_termination(ctx, impl, mev, rng, count):
     """Default n_iter (-1: sweep until nothing changes) on small weighted digraphs: the model (fuel 150) says which runs
     cycle; a few of those are confirmed on the implementation with a time-out, the others are run normally."""
     FUEL = 150
@@ -531,41 +580,37 @@ def run_termination(ctx, impl, rng, count):
         kw, form = seed_forms(rng, g, vec)
         cases.append(dict(fam='default_n_iter_digraph', g=g, vec=vec, kw=kw, form=form, weighted=True, node_order=None, n_iter=None))
     exprs = [prop_expr(c, adjacency_rows(c['g']), [], FUEL) for c in cases]
-    model = coq_eval('c13t', IMPORTS, exprs, prelude=PRELUDE)
-    cyc = [i for i, mv in enumerate(model) if mv[0] == 'POutOfFuel']
-    confirm = set(cyc[:1])
-    run_ok = [i for i, mv in enumerate(model) if mv[0] != 'POutOfFuel']
+    model = mev('c13t', exprs)
+    if model is not None:
+        cyc = [i for i, mv in enumerate(model) if mv[0] == 'POutOfFuel']
+        confirm = set(cyc[:1])
+        run_ok = [i for i, mv in enumerate(model) if mv[0] != 'POutOfFuel']
+    else:
+        # no model: the witness is run with the short time-out, the sample below pays for at most one more hang
+        cyc, confirm, run_ok = [], {0}, list(range(1, len(cases)))
     run_ok = set(rng.sample(run_ok, min(len(run_ok), 60)))
-    ctx.extra['default_n_iter_digraphs'] = dict(cases=len(cases), model_cycles=len(cyc), confirmed_on_impl=len(confirm))
+    ctx.extra['default_n_iter_digraphs'] = dict(cases=len(cases), model_cycles=len(cyc) if model is not None else None,
+                                                confirmed_on_impl=len(confirm))
+    hangs = 0
     for i, c in enumerate(cases):
         args = prop_args(c)
-        f = dict(node_order='none', weighted=True, n_iter_default=True, seed_vector_all_distinct=len(set(c['vec'])) == len(c['vec']),
-                 form=c['form'], family=c['fam'])
+        f = prop_fields(c)
         if i in cyc and i not in confirm:
             ctx.count('Propagation:predicted_nontermination_not_run', ('prop', args), True)
             continue
         if i not in confirm and i not in run_ok:
             continue
-        r = impl.call('c13', 'propagation', args, timeout=5 if i in confirm else 20)
+        if model is None and hangs >= 2:
+            continue
+        r = impl.call('c13', 'propagation', args, timeout=5 if (i in confirm or model is None) else 20)
         ctx.traces += 1
         ctx.count('Propagation:default_n_iter_digraph', ('prop', args), True)
         if 'hang' in r:
-            ctx.violation('propagation_hang', 'Propagation.fit with the default n_iter does not return (the sweeps cycle between '
-                          'labelings; model: out of fuel after %d sweeps)' % FUEL, case=args, kind='hang',
-                          model_out_of_fuel=model[i][0] == 'POutOfFuel', **f)
+            hangs += 1
+        labels = prop_oracles(ctx, c, adjacency_rows(c['g']), r, f,
+                              fuel_note='; model: out of fuel after %d sweeps' % FUEL if i in cyc else '')
+        if labels is None or model is None:
             continue
-        if 'ok' not in r:
-            ctx.violation('Propagation', 'fit raised / crashed on a valid input', case=args, kind='error',
-                          observed={k: r[k] for k in r if k != 'tb'}, **f)
-            continue
-        o = r['ok']
-        labels = all_labels(o, c['g'])
-        check_common(ctx, 'Propagation', c['g'], c['vec'], o, args, f)
-        bad = local_evidence(adjacency_rows(c['g']), True, c['vec'], labels)
-        if bad:
-            ctx.violation('Propagation', 'stopped because a sweep changed nothing, but a non-seed node with a labelled neighbour '
-                          'does not hold a label of maximal total vote', case=args, kind='not_local_max',
-                          observed=dict(labels=labels, nodes=bad[:4]), **f)
         mv = model[i]
         if mv[0] == 'POutOfFuel':
             drop(ctx, 'propagation: model out of fuel, implementation returned')
@@ -575,7 +620,7 @@ def run_termination(ctx, impl, rng, count):
 
 
 # ----------------------------------------------------------------------------------------------------------
-def run_diffusion(ctx, impl, rng, nmax, count):
+def run_diffusion(ctx, impl, mev, rng, nmax, count):
     cases = []
     for k in range(count):
         g = make_graph(rng, nmax)
@@ -591,7 +636,7 @@ def run_diffusion(ctx, impl, rng, nmax, count):
         if not c['centering'] and n <= 9 and c['n_iter'] <= 5 and len(idx) < 60:
             idx.append(i)
             exprs.append('run_dc %s %s %d' % (c_adj(adjacency_rows(c['g'])), clist(c['vec'], cz), c['n_iter']))
-    model = dict(zip(idx, coq_eval('c13d', IMPORTS, exprs, prelude=PRELUDE))) if exprs else {}
+    results = []
     for i, c in enumerate(cases):
         g, vec = c['g'], c['vec']
         args = dict(m=mspec(g), n_iter=c['n_iter'], centering=c['centering'])
@@ -615,6 +660,12 @@ def run_diffusion(ctx, impl, rng, nmax, count):
             if wrong:
                 ctx.violation('DiffusionClassifier', 'label -1 is not given exactly to the nodes of components without a seed',
                               case=args, kind='minus1_component', observed=dict(labels=labels, nodes=wrong[:6]), **f)
+        results.append((i, args, g, vec, o, f, labels))
+        if i % 71 == 0:
+            ctx.sample(dict(kind='DiffusionClassifier', args=args, labels=labels))
+    mvals = mev('c13d', exprs)
+    model = dict(zip(idx, mvals)) if mvals is not None else {}
+    for (i, args, g, vec, o, f, labels) in results:
         if i in model:
             mv = model[i]
             if mv is None:
@@ -637,12 +688,10 @@ def run_diffusion(ctx, impl, rng, nmax, count):
                         ctx.violation('DiffusionClassifier', 'label differs from the model', case=args, kind='model_diff',
                                       expected=list(ml), observed=labels, node=v, **f)
                         break
-        if i % 71 == 0:
-            ctx.sample(dict(kind='DiffusionClassifier', args=args, labels=labels))
 
 
 # ----------------------------------------------------------------------------------------------------------
-def run_nn(ctx, impl, rng, nmax, count):
+def run_nn(ctx, impl, mev, rng, nmax, count):
     cases, exprs = [], []
     for k in range(count):
         g = make_graph(rng, nmax)
@@ -679,7 +728,7 @@ def run_nn(ctx, impl, rng, nmax, count):
         cases.append((args, g, vec, o, f))
         exprs.append('run_nn %s %s %s %d %s' % (clist(vec, cz), clist(train, cnat), clist(test, cnat), args['n_neighbors'],
                                                      clist([rec['ap'] for rec in aps], lambda p: clist(p, cnat))))
-    model = coq_eval('c13n', IMPORTS, exprs, prelude=PRELUDE) if exprs else []
+    model = mev('c13n', exprs) or []
     for (args, g, vec, o, f), mv in zip(cases, model):
         mp, ml = mv
         mp = Qrows(mp)
@@ -695,7 +744,7 @@ def run_nn(ctx, impl, rng, nmax, count):
 
 
 # ----------------------------------------------------------------------------------------------------------
-def run_pagerank(ctx, impl, rng, nmax, count):
+def run_pagerank(ctx, impl, mev, rng, nmax, count):
     cases, exprs = [], []
     for k in range(count):
         g = make_graph(rng, min(nmax, 20))
@@ -729,7 +778,7 @@ def run_pagerank(ctx, impl, rng, nmax, count):
                 continue
             cases.append((args, g, vec, o, f))
             exprs.append('run_rank %s %s' % (clist(vec, cz), clist(sc, lambda row: clist(row, cq))))
-    model = coq_eval('c13r', IMPORTS, exprs, prelude=PRELUDE) if exprs else []
+    model = mev('c13r', exprs) or []
     for (args, g, vec, o, f), mv in zip(cases, model):
         ml, mp = mv
         labels, probs = all_labels(o, g), all_probs(o, g)
@@ -758,7 +807,7 @@ def run_pagerank(ctx, impl, rng, nmax, count):
 
 
 # ----------------------------------------------------------------------------------------------------------
-def run_nnlinker(ctx, impl, rng, nmax, count):
+def run_nnlinker(ctx, impl, mev, rng, nmax, count):
     cases, exprs = [], []
     for k in range(count):
         g = make_graph(rng, nmax, unequal=rng.random() < 0.7)
@@ -816,7 +865,7 @@ def run_nnlinker(ctx, impl, rng, nmax, count):
             cases.append((args, o, f))
             exprs.append('run_linker %s %s %d %s %s' % (clist(emb, lambda row: clist(row, cq)), clist(mask, cbool), nn_,
                                                                cq(thr), clist([a['ap'] for a in o['argparts']], lambda p: clist(p, cnat))))
-    model = coq_eval('c13l', IMPORTS, exprs, prelude=PRELUDE) if exprs else []
+    model = mev('c13l', exprs) or []
     for (args, o, f), mv in zip(cases, model):
         exp = {i: [(c, float(Qf(v))) for c, v in row] for i, row in mv}
         got = {i: [(c, v) for c, v in row] for i, row in enumerate(o['rows']) if o['mask'][i]}
@@ -830,7 +879,31 @@ def run_nnlinker(ctx, impl, rng, nmax, count):
 
 
 # ----------------------------------------------------------------------------------------------------------
-def run_metrics(ctx, impl, rng, count):
+def py_metrics(t, p):
+    """Textbook definitions from per-class TP / FP / FN counts over the counted samples (independent of the Coq model):
+    (accuracy, confusion, [f1, precision, recall], micro, macro, weighted); None where the source raises ValueError."""
+    m = [(a, b) for a, b in zip(t, p) if a >= 0 and b >= 0]
+    if not m:
+        return (None,) * 6
+    K = max(max(t), max(p)) + 1
+    acc = Fraction(sum(1 for a, b in m if a == b), len(m))
+    conf = [[sum(1 for a, b in m if a == i and b == j) for j in range(K)] for i in range(K)]
+    f1, pr, rc = [], [], []
+    for k in range(K):
+        tp = sum(1 for a, b in m if a == k and b == k)
+        fp = sum(1 for a, b in m if a != k and b == k)
+        fn = sum(1 for a, b in m if a == k and b != k)
+        pr.append(Fraction(tp, tp + fp) if tp + fp else Fraction(0))
+        rc.append(Fraction(tp, tp + fn) if tp + fn else Fraction(0))
+        f1.append(Fraction(2 * tp, 2 * tp + fp + fn) if tp else Fraction(0))
+    macro = sum(f1) / K
+    cls = sorted({a for a in t if a >= 0})
+    cnt = {l: sum(1 for a in t if a == l) for l in cls}
+    weighted = sum(f1[l] * cnt[l] for l in cls) / sum(cnt.values())
+    return acc, conf, [f1, pr, rc], acc, macro, weighted
+
+
+def run_metrics(ctx, impl, mev, rng, count):
     cases = []
     # exhaustive tiny: all pairs of vectors of length <= 2 over {-1, 0, 1}
     for L in (1, 2):
@@ -843,9 +916,8 @@ def run_metrics(ctx, impl, rng, count):
         t = [rng.choice(pool) for _ in range(L)]
         p = [x if rng.random() < 0.6 else rng.choice(pool) for x in t]
         cases.append((t, p))
-    exprs = ['run_metrics %s %s' % (clist(t, cz), clist(p, cz)) for t, p in cases]
-    model = coq_eval('c13m', IMPORTS, exprs, prelude=PRELUDE)
-    for k, ((t, p), mv) in enumerate(zip(cases, model)):
+    # ---- implementation against the textbook definitions
+    for k, (t, p) in enumerate(cases):
         r = impl.call('c13', 'metrics', dict(true=t, pred=p), timeout=20)
         ctx.traces += 1
         counted = any(a >= 0 and b >= 0 for a, b in zip(t, p))
@@ -854,13 +926,7 @@ def run_metrics(ctx, impl, rng, count):
             ctx.violation('metrics', 'worker failed', case=dict(true=t, pred=p), kind='error', observed=r)
             continue
         o = r['ok']
-        acc, conf, f1s, micro, macro, weighted = mv
-
-        def unopt(x):
-            return None if x is None else x[1]
-
-        def qopt(x):
-            return None if x is None else Qf(x[1])
+        acc, conf, f1v, micro, macro, weighted = py_metrics(t, p)
 
         def cmp(name, exp, got_key, conv=lambda x: x):
             got = o[got_key]
@@ -877,13 +943,12 @@ def run_metrics(ctx, impl, rng, count):
                 ctx.violation('metrics', '%s differs from its confusion-matrix definition' % name, case=dict(true=t, pred=p),
                               kind='value', metric=name, expected=conv(exp), observed=got['ok'])
 
-        cmp('accuracy', qopt(acc), 'accuracy', float)
-        cmp('confusion', unopt(conf), 'confusion', lambda C: [list(map(int, row)) for row in C])
-        f1v = None if f1s is None else [[Qf(y) for y in part] for part in f1s[1]]
+        cmp('accuracy', acc, 'accuracy', float)
+        cmp('confusion', conf, 'confusion')
         cmp('f1_scores', f1v, 'f1_scores', lambda x: [list(map(float, y)) for y in x])
-        cmp('average_micro', qopt(micro), 'avg_micro', float)
-        cmp('average_macro', qopt(macro), 'avg_macro', float)
-        cmp('average_weighted', qopt(weighted), 'avg_weighted', float)
+        cmp('average_micro', micro, 'avg_micro', float)
+        cmp('average_macro', macro, 'avg_macro', float)
+        cmp('average_weighted', weighted, 'avg_weighted', float)
         vals = {x for x in t if x >= 0} | {x for x in p if x >= 0}
         if vals == {0, 1} and f1v is not None:
             f1, pr, rc = f1v
@@ -892,7 +957,17 @@ def run_metrics(ctx, impl, rng, count):
             ctx.violation('metrics', 'get_f1_score accepted non-binary labels', case=dict(true=t, pred=p), kind='error_kind',
                           metric='f1_binary', observed=o['f1_binary'])
         if k % 150 == 0:
-            ctx.sample(dict(kind='metrics', true=t, pred=p, impl=o, model_accuracy=str(qopt(acc))))
+            ctx.sample(dict(kind='metrics', true=t, pred=p, impl=o, definition_accuracy=str(acc)))
+    # ---- the Coq model (proved equal to the definitions) must give exactly the same rationals
+    model = mev('c13m', ['run_metrics %s %s' % (clist(t, cz), clist(p, cz)) for t, p in cases])
+    for (t, p), mv in zip(cases, model or []):
+        acc, conf, f1s, micro, macro, weighted = mv
+        qo = lambda x: None if x is None else Qf(x[1])
+        got = (qo(acc), None if conf is None else [list(r_) for r_ in conf[1]],
+               None if f1s is None else [[Qf(y) for y in part] for part in f1s[1]], qo(micro), qo(macro), qo(weighted))
+        if got != py_metrics(t, p):
+            ctx.violation('metrics', 'the Coq model of metrics.py differs from the textbook definitions', case=dict(true=t, pred=p),
+                          kind='model_diff', expected=py_metrics(t, p), observed=got)
 
 
 def conv_close(a, b):
@@ -904,7 +979,7 @@ def conv_close(a, b):
 
 
 # ----------------------------------------------------------------------------------------------------------
-def run_label_range(ctx, impl, rng, count):
+def run_label_range(ctx, impl, mev, rng, count):
     """Seed labels >= n (C17's side of vote_update): crashes / hangs are reported here under their own site."""
     cases = []
     for _ in range(count):
@@ -917,7 +992,7 @@ def run_label_range(ctx, impl, rng, count):
         cases.append(dict(fam='label_range', g=g, vec=vec, kw=kw, form=form, weighted=rng.random() < 0.5, node_order=None,
                           n_iter=rng.choice([2, 5])))
     exprs = [prop_expr(c, adjacency_rows(c['g']), [], c['n_iter'] + 1) for c in cases]
-    model = coq_eval('c13x', IMPORTS, exprs, prelude=PRELUDE)
+    model = mev('c13x', exprs) or [('NoModel',)] * len(cases)
     for c, mv in zip(cases, model):
         args = prop_args(c)
         r = impl.call('c13', 'propagation', args, timeout=15)
